@@ -15,6 +15,18 @@
 (* cursor for id c, or a forged one for a string between id c and id c+1).    *)
 (* BadCur is any string that does not decode to a page token.                 *)
 (*                                                                            *)
+(* Identifier classes: what an id looks like is part of the state.  A server  *)
+(* lists one feature kind; every id of the universe has a class "size/flav":  *)
+(* how long its unique id is (tool names end at the 128-byte limit, prompt    *)
+(* names, resource URIs and URI templates have no limit: ~150 bytes, ~1 KB,   *)
+(* several KB) and which unusual but legal characters it is made of           *)
+(* (percent-escapes, query strings, non-ASCII, characters that JSON or        *)
+(* base64 must escape).  The cursor a page carries embeds the unique id of    *)
+(* the page's last item, so its length follows that id's class: tEndCls is    *)
+(* the class of the identifier that ended the last non-final page, and the    *)
+(* cursor made from it must be accepted like any other (ListResult does not   *)
+(* look at the class: there is no bound on an issued cursor).                 *)
+(*                                                                            *)
 (* Visibility filter: between the server's paginateList and the client there  *)
 (* may be a receiving middleware (or a proxy, or the peer is not this SDK's   *)
 (* server at all) that hides a class of features: the page ARRIVES with the   *)
@@ -28,7 +40,26 @@ CONSTANTS Ids,        \* e.g. 1..5
           PageSizes,  \* e.g. {1,2,3}
           MaxMut,     \* bound on the number of mutations in a history
           MaxTrav,    \* bound on the number of traversals in a history
-          HiddenSets  \* the hidden sets a traversal may run under (subsets of Ids; {} = no filter)
+          HiddenSets, \* the hidden sets a traversal may run under (subsets of Ids; {} = no filter)
+          ClassMaps   \* [kind -> the assignments Ids -> identifier class a history may start from]
+
+\* feature kinds and, per kind, the identifier classes (size x flavour)
+Kinds == {"tools", "prompts", "resources", "templates"}
+SizesOf(k) == CASE k = "tools"     -> {"short", "n64", "n128"}          \* validateToolName: at most 128 bytes
+                [] k = "prompts"   -> {"short", "n128", "n150", "k1"}   \* no limit on prompt names
+                [] k = "resources" -> {"short", "n150", "k1", "k4"}     \* no limit on URIs
+                [] k = "templates" -> {"short", "n150", "k1", "k4"}     \* no limit on URI templates
+FlavoursOf(k) == CASE k = "tools"     -> {"plain", "punct"}                        \* [A-Za-z0-9_.-] only
+                   [] k = "prompts"   -> {"plain", "utf8", "esc"}
+                   [] k = "resources" -> {"plain", "pct", "query", "utf8", "esc"}
+                   [] k = "templates" -> {"plain", "pct", "utf8", "esc", "expr"}
+ClassTable == [k \in Kinds |-> {s \o "/" \o f : s \in SizesOf(k), f \in FlavoursOf(k)}]  \* (a constant: evaluated once)
+Classes(k) == ClassTable[k]
+ShortClass == "short/plain"
+\* nominal byte length of a unique id of a size (lower, upper bound); k4 is "several KB"
+SizeRange(s) == CASE s = "short" -> <<1, 60>>    [] s = "n64" -> <<64, 64>>     [] s = "n128" -> <<128, 128>>
+                  [] s = "n150"  -> <<150, 200>> [] s = "k1"  -> <<1000, 1100>> [] s = "k4"   -> <<4000, 6500>>
+NoClass == "none"
 
 BadCur == -1
 Cursors == 0..Cardinality(Ids)
@@ -37,9 +68,12 @@ VARIABLES registered,  \* featureSet.features (key set)
           idxValid,    \* sortedKeys # nil
           idx,         \* sortedKeys (<<>> when not valid)
           pageSize,    \* ServerOptions.PageSize
+          kind,        \* the feature kind this server lists
+          cls,         \* identifier class of every id of the universe (fixed for a history)
           tActive,     \* a manual traversal is in progress or finished
           tDone,       \* ... and has received an empty cursor
           tCursor,     \* cursor to use for the next fetch
+          tEndCls,     \* class of the identifier that ended the last non-final page (its unique id is inside tCursor)
           tHidden,     \* ids the visibility filter hides during this traversal
           tSeen,       \* ghost: concatenation of the pages received so far
           tStable,     \* ghost: ids registered at every moment since the traversal started
@@ -48,7 +82,7 @@ VARIABLES registered,  \* featureSet.features (key set)
           nMut, nTrav, \* history bounds
           res          \* result of the last operation (output only)
 
-svars == <<registered, idxValid, idx, pageSize, tActive, tDone, tCursor, tHidden, tSeen, tStable, tInit, tMut,
+svars == <<registered, idxValid, idx, pageSize, kind, cls, tActive, tDone, tCursor, tEndCls, tHidden, tSeen, tStable, tInit, tMut,
            nMut, nTrav, res>>
 
 \* ascending sequence of a set of integers
@@ -87,12 +121,13 @@ ListResult(c) == IF c = BadCur THEN [kind |-> "invalid-params", items |-> <<>>, 
 \* ... seen through a filter that hides H: items removed, cursor untouched
 Arrives(r, H) == [r EXCEPT !.items = Visible(r.full, H)]
 
-TravUnchanged == UNCHANGED <<tActive, tDone, tCursor, tHidden, tSeen, tStable, tInit, tMut, nTrav>>
+TravUnchanged == UNCHANGED <<tActive, tDone, tCursor, tEndCls, tHidden, tSeen, tStable, tInit, tMut, nTrav>>
 
 Init == /\ registered \in SUBSET Ids
         /\ idxValid = FALSE /\ idx = <<>>
         /\ pageSize \in PageSizes
-        /\ tActive = FALSE /\ tDone = FALSE /\ tCursor = 0 /\ tHidden = {} /\ tSeen = <<>>
+        /\ kind \in Kinds /\ cls \in ClassMaps[kind]
+        /\ tActive = FALSE /\ tDone = FALSE /\ tCursor = 0 /\ tEndCls = NoClass /\ tHidden = {} /\ tSeen = <<>>
         /\ tStable = {} /\ tInit = {} /\ tMut = FALSE
         /\ nMut = 0 /\ nTrav = 0
         /\ res = [kind |-> "none"]
@@ -105,7 +140,7 @@ Add(i) ==
   /\ tMut' = (tMut \/ (tActive /\ ~tDone))
   /\ nMut' = nMut + 1
   /\ res' = [kind |-> "ok"]
-  /\ UNCHANGED <<pageSize, tActive, tDone, tCursor, tHidden, tSeen, tStable, tInit, nTrav>>
+  /\ UNCHANGED <<pageSize, kind, cls, tActive, tDone, tCursor, tEndCls, tHidden, tSeen, tStable, tInit, nTrav>>
 
 Replace(i) ==
   /\ i \in registered
@@ -113,7 +148,7 @@ Replace(i) ==
   /\ tMut' = (tMut \/ (tActive /\ ~tDone))
   /\ nMut' = nMut + 1
   /\ res' = [kind |-> "ok"]
-  /\ UNCHANGED <<registered, pageSize, tActive, tDone, tCursor, tHidden, tSeen, tStable, tInit, nTrav>>
+  /\ UNCHANGED <<registered, pageSize, kind, cls, tActive, tDone, tCursor, tEndCls, tHidden, tSeen, tStable, tInit, nTrav>>
 
 \* featureSet.remove: resets the index only when something was removed
 Remove(i) ==
@@ -123,7 +158,7 @@ Remove(i) ==
   /\ tMut' = (tMut \/ (tActive /\ ~tDone /\ i \in registered))
   /\ nMut' = nMut + 1
   /\ res' = [kind |-> "ok"]
-  /\ UNCHANGED <<pageSize, tActive, tDone, tCursor, tHidden, tSeen, tInit, nTrav>>
+  /\ UNCHANGED <<pageSize, kind, cls, tActive, tDone, tCursor, tEndCls, tHidden, tSeen, tInit, nTrav>>
 
 \* a manual traversal starts under the filter H
 StartTraversal(H) ==
@@ -132,7 +167,8 @@ StartTraversal(H) ==
   /\ tStable' = registered /\ tInit' = registered /\ tMut' = FALSE
   /\ nTrav' = nTrav + 1
   /\ res' = [kind |-> "ok"]
-  /\ UNCHANGED <<registered, idxValid, idx, pageSize, nMut>>
+  /\ tEndCls' = NoClass
+  /\ UNCHANGED <<registered, idxValid, idx, pageSize, kind, cls, nMut>>
 
 \* one page of the manual traversal (= one round of the client iterator's loop): the items that
 \* arrive are appended, and the NEXT CURSOR ALONE decides whether the traversal goes on - an
@@ -144,14 +180,17 @@ FetchPage ==
        /\ tSeen' = tSeen \o r.items
        /\ tCursor' = r.next
        /\ tDone' = (r.next = 0)
+       \* the next cursor embeds the unique id of the page's last item as built by the server, whatever its class
+       /\ tEndCls' = IF r.next = 0 THEN NoClass ELSE cls[r.next]
   /\ idxValid' = TRUE /\ idx' = SortKeys
-  /\ UNCHANGED <<registered, pageSize, tActive, tHidden, tStable, tInit, tMut, nMut, nTrav>>
+  /\ UNCHANGED <<registered, pageSize, kind, cls, tActive, tHidden, tStable, tInit, tMut, nMut, nTrav>>
 
-\* a list request with an arbitrary cursor, outside any traversal
+\* a list request with an arbitrary cursor, outside any traversal (a well-formed token for position c may embed a
+\* unique id of any class - issued, stale or forged; the answer does not depend on it)
 Probe(c) ==
   /\ res' = [ListResult(c) EXCEPT !.kind = IF c = BadCur THEN "invalid-params" ELSE "probe"]
   /\ IF c = BadCur THEN UNCHANGED <<idxValid, idx>> ELSE idxValid' = TRUE /\ idx' = SortKeys
-  /\ UNCHANGED <<registered, pageSize, nMut>>
+  /\ UNCHANGED <<registered, pageSize, kind, cls, nMut>>
   /\ TravUnchanged
 
 BadCursor == Probe(BadCur)
@@ -166,7 +205,7 @@ Walk(k, ps, c, fuel, H) ==
 Iterate(H) ==
   /\ res' = [kind |-> "iter", items |-> Walk(SortKeys, pageSize, 0, Cardinality(Ids) + 1, H), set |-> registered \ H]
   /\ idxValid' = TRUE /\ idx' = SortKeys
-  /\ UNCHANGED <<registered, pageSize, nMut>>
+  /\ UNCHANGED <<registered, pageSize, kind, cls, nMut>>
   /\ TravUnchanged
 
 Next ==
@@ -208,6 +247,12 @@ EndsWithEmptyCursor ==
                                             /\ tHidden = {} => tCursor = tSeen[Len(tSeen)]
   /\ Len(tSeen) <= Cardinality(Ids)
 
+\* the identifier that ended a non-final page is explicit: it is the one inside the cursor, and the cursor
+\* made from it is accepted whatever its class (an issued cursor is never refused)
+EndClassExplicit ==
+  /\ tEndCls = IF tActive /\ ~tDone /\ tCursor # 0 THEN cls[tCursor] ELSE NoClass
+  /\ (tActive /\ ~tDone) => ListResult(tCursor).kind = "page"
+
 BadCursorRejected == res.kind = "invalid-params" => (res.items = <<>> /\ res.next = 0)
 
 \* as built by the server (`full`) pages never exceed the page size, a non-final page is full and a cursor
@@ -227,4 +272,6 @@ IndexFresh == idxValid => idx = SortedSeq(registered)
 
 TypeOK == /\ registered \subseteq Ids /\ pageSize \in PageSizes /\ tCursor \in Cursors
           /\ tStable \subseteq registered /\ tHidden \subseteq Ids
+          \* (kind and cls never change: outside a traversal is enough; tEndCls is pinned down by EndClassExplicit)
+          /\ kind \in Kinds /\ (~tActive => cls \in [Ids -> Classes(kind)])
 =============================================================================
